@@ -143,7 +143,28 @@ def check_listing(res, text, v=None):
             return None
         got = out
     res.outcome(repr(want) + ('!' if lexerr else ''))
+    if lexerr is not None:
+        failed_listing(res, text, want)
     return got if lexerr is None else None
+
+
+def failed_listing(res, text, seen):
+    """list_names raised (the text is lexically invalid) after reporting `seen`: an evaluation of that text may not ask the host
+    for any other name."""
+    R = e1.get_real()
+    for kind, m in valuations(sorted(set(seen))):
+        try:
+            R.parser.eval(text, m, max_ops_evaluated=2000)
+        except Exception:  # noqa
+            pass
+        res.count('evaluations')
+        # names yielded before the listing raised count as reported (eval strips trailing white space the lexer rejects, e.g. 'a\f')
+        bad = [k for k in m.asked if k not in seen and k not in IMPLICIT]
+        if bad:
+            res.violation('eval-asks-after-listing-failed', 'list_names rejects the text but an evaluation of it asks the host mapping for '
+                          'names the listing had not reported before it raised',
+                          {'text': text, 'valuation': kind, 'expected': f'only {sorted(set(seen))}', 'observed': f'asked for {bad[:5]}'})
+        return
 
 
 def tree_names(op, out):
